@@ -6,6 +6,7 @@ import (
 
 	"gonum.org/v1/gonum/verifx/c02/lapackgen"
 	"gonum.org/v1/gonum/verifx/ref"
+	"gonum.org/v1/gonum/verifx/vrt"
 )
 
 // colNormsBelow returns the 2-norms of the columns of a restricted to rows
@@ -44,9 +45,22 @@ func (cs *Case) checkPartialQR(routine, tag, what string, a, out *ref.M, jpvt []
 		}
 	}
 	fs := subRows(out, offset, m)
-	if fs.HasNaN() || hasNaN(tau[:kb]) {
+	if fs.HasNaN() {
 		cs.fail(routine, tag, "nan-in-factors", "%s", what)
 		return
+	}
+	if hasNaN(tau[:kb]) {
+		// tau is tainted on entry: an entry that is still NaN was never
+		// written. Report it, then judge the factorization with H_i = I for
+		// those reflectors (what a caller with a zeroed tau would get), so
+		// that the normwise verdict does not depend on the taint.
+		cs.fail(routine, tag, "tau-entry-not-written", "%s: first unwritten entry is tau[%d]", what, firstNaN(tau[:kb]))
+		tau = cloneF(tau)
+		for i := range tau {
+			if math.IsNaN(tau[i]) {
+				tau[i] = 0
+			}
+		}
 	}
 	q := formQ("QR", fs, tau, kb)
 	t := fs.Clone()
@@ -60,20 +74,94 @@ func (cs *Case) checkPartialQR(routine, tag, what string, a, out *ref.M, jpvt []
 	cs.band(routine, tag, "qr-reconstruction", ref.MaxDiff(subRows(ap, offset, m), ref.Mul(q, t)), float64(mm)*eps*a.NormFro(), func() string { return what })
 }
 
-// rankDeficient returns an m x n matrix of rank r = B*C with well
-// conditioned m x r and r x n factors.
+// qp3Classes are the input classes of the pivoted-QR checks. Beyond the
+// general ones they are chosen so that partial column norms collapse while
+// the blocked part of Dgeqp3 (columns 0 .. min(m,n)-128) is still running:
+// Dlaqps then stops a panel early (returns kb < nb) and the driver has to
+// continue from column j+kb.
+//
+//	rankdef        exact product of rank min(m,n)/2
+//	lowrank        exact product of rank 2..6
+//	lowrank+1e-3, +1e-6, +1e-10   the same plus dense noise of that size
+//	rowgraded2     row i scaled by 2^-i
+//	colgraded2     column j scaled by 2^-j (in shuffled column order)
+//	dupcol         every column is one of ~6 distinct columns or a sum of two, duplicated exactly
+//	zerocol        a third of the columns exactly zero
+var qp3Classes = []string{clsRand, clsWell, clsSpec, clsGraded, "rankdef", "lowrank", "lowrank+1e-3", "lowrank+1e-6", "lowrank+1e-10", "rowgraded2", "colgraded2", "dupcol", "zerocol"}
+
+// qp3Collapsing are the classes on which an early panel stop is expected.
+var qp3Collapsing = []string{"lowrank", "lowrank+1e-3", "lowrank+1e-6", "lowrank+1e-10", "rowgraded2", "dupcol"}
+
+func qp3Matrix(rng *vrt.Rand, cls string, m, n int) *ref.M {
+	k := min(m, n)
+	rnd := func(r, c int) *ref.M { return ref.FromFunc(r, c, func(i, j int) float64 { return rng.Sym() }) }
+	switch cls {
+	case "rankdef":
+		r := max(1, k/2)
+		return ref.Mul(rnd(m, r), rnd(r, n))
+	case "lowrank", "lowrank+1e-3", "lowrank+1e-6", "lowrank+1e-10":
+		r := min(max(k, 1), 2+rng.Intn(5))
+		a := ref.Mul(rnd(m, r), rnd(r, n))
+		noise := map[string]float64{"lowrank": 0, "lowrank+1e-3": 1e-3, "lowrank+1e-6": 1e-6, "lowrank+1e-10": 1e-10}[cls]
+		if noise != 0 {
+			for i := range a.D {
+				a.D[i] += noise * rng.Sym()
+			}
+		}
+		return a
+	case "rowgraded2":
+		a := rnd(m, n)
+		for i := 0; i < m; i++ {
+			for j := 0; j < n; j++ {
+				a.D[i*n+j] = math.Ldexp(a.D[i*n+j], -i)
+			}
+		}
+		return a
+	case "colgraded2":
+		a := rnd(m, n)
+		p := rng.Perm(n)
+		for i := 0; i < m; i++ {
+			for j := 0; j < n; j++ {
+				a.D[i*n+j] = math.Ldexp(a.D[i*n+j], -p[j])
+			}
+		}
+		return a
+	case "dupcol":
+		base := rnd(m, 6)
+		a := ref.New(m, n)
+		for j := 0; j < n; j++ {
+			c1, c2 := rng.Intn(6), rng.Intn(6)
+			two := rng.Intn(3) == 0
+			for i := 0; i < m; i++ {
+				v := base.D[i*6+c1]
+				if two {
+					v += base.D[i*6+c2]
+				}
+				a.D[i*n+j] = v
+			}
+		}
+		return a
+	case "zerocol":
+		a := rnd(m, n)
+		for j := 0; j < n; j++ {
+			if rng.Intn(3) == 0 {
+				for i := 0; i < m; i++ {
+					a.D[i*n+j] = 0
+				}
+			}
+		}
+		return a
+	}
+	a, _ := general(rng, cls, m, n)
+	return a
+}
+
 func (h *H) checkQP3(id string, seedIdx, m, n int, cls string, deep bool) {
 	rng := h.c.RNG("qp3", seedIdx)
 	cs := h.newCase(id, rng)
 	defer cs.done()
-	var a *ref.M
 	k := min(m, n)
-	if cls == "rankdef" {
-		r := max(1, k/2)
-		a = ref.Mul(ref.FromFunc(m, r, func(i, j int) float64 { return rng.Sym() }), ref.FromFunc(r, n, func(i, j int) float64 { return rng.Sym() }))
-	} else {
-		a, _ = general(rng, cls, m, n)
-	}
+	a := qp3Matrix(rng, cls, m, n)
 	dims := D{"m": m, "n": n}
 	anorm := a.NormFro()
 
@@ -157,15 +245,22 @@ func (h *H) checkQP3(id string, seedIdx, m, n int, cls string, deep bool) {
 						same = false
 					}
 				}
+				// Run 0 is lwork = min, i.e. the unblocked path (Dlaqp2 only).
+				// With identical pivot sequences the rank-revealing diagonals
+				// of the blocked runs must agree with it to rounding.
 				if !same {
 					h.c.Count("qp3.pivot_divergence", 1)
-				} else if cls == clsWell {
-					cs.band("Dgeqp3", tag, "qr-differential", maxDiffVec(d, diag0)/math.Max(anorm, 1e-300), float64(m)*eps*10, func() string {
-						return what + fmt.Sprintf(" (|diag R| vs run 0, run %d)", ri)
+				} else {
+					cs.band("Dgeqp3", tag, "qp3-diagonal-blocked-vs-unblocked", maxDiffVec(d, diag0), float64(m)*eps*anorm, func() string {
+						return what + fmt.Sprintf(" (|diag R| vs lwork=min run, run %d)", ri)
 					})
 				}
 			}
 		}
+	}
+
+	if k > 128 {
+		cs.geqp3Driver(a, cls)
 	}
 
 	// ---- Dlaqp2 / Dlaqps -------------------------------------------------------
@@ -228,21 +323,105 @@ func (h *H) checkQP3(id string, seedIdx, m, n int, cls string, deep bool) {
 	}
 }
 
+// geqp3Driver composes a blocked pivoted QR out of Dlaqps and Dlaqp2 calls
+// exactly as documented for those routines (and as Dgeqp3 does for free
+// columns with ample workspace): panels of nb = 32 columns while
+// j < min(m,n) - 128, each continuing at column j + kb where kb is the number
+// of columns Dlaqps reports as factorized, then Dlaqp2 for the rest. The
+// composition must satisfy A*P = Q*R. It also tells how often a panel stops
+// early on this input (counters geqp3_driver.*): the same input goes through
+// Dgeqp3 itself in the runs above, so the evidence shows that the
+// continue-after-early-stop path of Dgeqp3 was reached.
+func (cs *Case) geqp3Driver(a *ref.M, cls string) {
+	h := cs.h
+	m, n := a.R, a.C
+	k := min(m, n)
+	const nb, nx = 32, 128
+	cur := a.Clone()
+	perm := make([]int, n)
+	for j := range perm {
+		perm[j] = j
+	}
+	tau := make([]float64, k)
+	vn1 := colNormsBelow(a, 0)
+	vn2 := cloneF(vn1)
+	apply := func(j int, args *lapackgen.Args, kb int) {
+		out := getMat(args, "a")
+		w := n - j
+		for i := 0; i < m; i++ {
+			copy(cur.D[i*n+j:i*n+n], out.D[i*w:i*w+w])
+		}
+		lp := args.Ints("jpvt")
+		old := cloneI(perm[j:])
+		for t := 0; t < w; t++ {
+			perm[j+t] = old[lp[t]]
+		}
+		copy(tau[j:j+kb], args.F64s("tau")[:kb])
+		copy(vn1[j:], args.F64s("vn1")[:w])
+		copy(vn2[j:], args.F64s("vn2")[:w])
+	}
+	fill := func(j int) func(x *lapackgen.Args) {
+		return func(x *lapackgen.Args) {
+			setMat(x, "a", subCols(cur, j, n))
+			for t := range x.Ints("jpvt") {
+				x.Ints("jpvt")[t] = t
+			}
+			setVec(x, "vn1", vn1[j:])
+			setVec(x, "vn2", vn2[j:])
+		}
+	}
+	j, panels, stops := 0, 0, 0
+	for topbmn := k - nx; j < topbmn; {
+		jb := min(nb, topbmn-j)
+		args, res := cs.call("Dlaqps", "driver", D{"m": m, "n": n - j, "offset": j, "nb": jb}, nil, cfg{pad: 7 * (panels % 2)}, fill(j))
+		if args == nil {
+			return
+		}
+		kb := res.Int
+		if kb < 1 || kb > jb {
+			cs.fail("Dlaqps", "driver", "kb-out-of-range", "m=%d n=%d offset=%d nb=%d class=%s: kb=%d", m, n-j, j, jb, cls, kb)
+			return
+		}
+		panels++
+		if kb < jb {
+			stops++
+		}
+		apply(j, args, kb)
+		j += kb
+	}
+	h.c.Count("geqp3_driver.panels", int64(panels))
+	h.c.Count("geqp3_driver.panels_stopped_early(kb<nb)", int64(stops))
+	if stops > 0 {
+		h.c.Count("geqp3_driver.inputs_with_early_stop", 1)
+		h.c.Count("geqp3_driver.inputs_with_early_stop|"+cls, 1)
+	}
+	if j < k {
+		args, _ := cs.call("Dlaqp2", "driver", D{"m": m, "n": n - j, "offset": j}, nil, cfg{}, fill(j))
+		if args == nil {
+			return
+		}
+		apply(j, args, k-j)
+	}
+	what := fmt.Sprintf("driver composition m=%d n=%d class=%s panels=%d early stops=%d", m, n, cls, panels, stops)
+	cs.checkPartialQR("Dlaqps+Dlaqp2", "driver", what, a, cur, perm, tau, 0, k)
+}
+
 func (h *H) planQP3(add addFn) {
 	idx := 0
-	classes := []string{clsRand, clsWell, clsSpec, clsGraded, "rankdef"}
+	classes := qp3Classes
 	one := func(m, n int, cls string) {
 		idx++
 		i := idx
 		id := fmt.Sprintf("QP3 m=%d n=%d class=%s #%d", m, n, cls, i)
 		add("qp3", 5*m*n*max(m, n), func() { h.checkQP3(id, i, m, n, cls, h.thorough()) })
 	}
-	// min(m,n) > 160 = nx + nb: a second blocked panel in Dgeqp3 (with the
-	// queried workspace), also on rank-deficient input (cancellation in the
-	// partial column norms: Dlaqps stops a panel early and recomputes).
-	big := [][2]int{{170, 165}}
+	// Blocked sizes: min(m,n) >= 130 gives a first panel of >= 2 columns,
+	// > 160 a second panel. Every class in thorough; in quick one collapsing
+	// class per shape (rotating with the repetition) so that the path where
+	// Dlaqps stops a panel early inside Dgeqp3 is always exercised.
+	big := [][2]int{{170, 165}, {131, 140}}
 	if h.thorough() {
-		big = [][2]int{{170, 165}, {165, 170}, {190, 170}, {170, 190}}
+		big = [][2]int{{130, 130}, {140, 131}, {131, 140}, {170, 165}, {165, 170}, {190, 170}, {170, 190}, {200, 200}}
 	}
 	for rep := 0; rep < h.reps(); rep++ {
 		for bi, mn := range big {
@@ -252,25 +431,47 @@ func (h *H) planQP3(add addFn) {
 				}
 				continue
 			}
-			one(mn[0], mn[1], []string{"rankdef", clsRand}[(bi+rep)%2])
+			one(mn[0], mn[1], qp3Collapsing[(2+bi*3+rep)%len(qp3Collapsing)])
+			if bi == 0 {
+				one(mn[0], mn[1], []string{"rankdef", clsRand}[rep%2])
+			}
+		}
+		// Other shapes (including further blocked sizes 129..200): the five
+		// general classes plus three rotating special ones.
+		thoroughClasses := func(m, n, si int) []string {
+			c := append([]string{}, classes[:5]...)
+			for t := 0; t < 3; t++ {
+				c = append(c, classes[5+(si+rep+3*t)%(len(classes)-5)])
+			}
+			return c
 		}
 		for si, n := range h.squares() {
 			if h.thorough() {
-				for _, cls := range classes {
+				for _, cls := range thoroughClasses(n, n, si) {
 					one(n, n, cls)
 				}
 				continue
 			}
-			one(n, n, classes[si%len(classes)])
+			one(n, n, classes[(si+rep*5)%len(classes)])
 		}
 		for si, mn := range h.rects() {
 			if h.thorough() {
-				for _, cls := range classes {
+				for _, cls := range thoroughClasses(mn[0], mn[1], si) {
 					one(mn[0], mn[1], cls)
 				}
 				continue
 			}
-			one(mn[0], mn[1], classes[(si+2)%len(classes)])
+			one(mn[0], mn[1], classes[(si+2+rep*5)%len(classes)])
 		}
 	}
+}
+
+// firstNaN returns the index of the first NaN entry (-1 if none).
+func firstNaN(x []float64) int {
+	for i, v := range x {
+		if math.IsNaN(v) {
+			return i
+		}
+	}
+	return -1
 }
